@@ -680,6 +680,7 @@ def assemble(unit_path: str, contracts=None, canary: bool = False) -> Assembled:
     includes: List[str] = []
     mod_stack: List[str] = []
 
+    missing_stubs: List[str] = []
     bodies = set()
     for line in open(unit_path):
         mb = re.match(r'^\s*//@bodies\s+(.*)$', line)
@@ -727,8 +728,16 @@ def assemble(unit_path: str, contracts=None, canary: bool = False) -> Assembled:
                 if mm.group(3):
                     for kv in re.finditer(r'(\w+)="([^"]*)"', mm.group(3)):
                         opts[kv.group(1)] = kv.group(2)
-                fsegs, info = extract_fn(unit, file, item, d if d != 'item' else 'item', contracts,
-                                         canary and d == 'body', opts)
+                try:
+                    fsegs, info = extract_fn(unit, file, item, d if d != 'item' else 'item', contracts,
+                                             canary and d == 'body', opts)
+                except LostAnchor as e:
+                    # a function that is only needed as a contract-only stub and no longer exists is simply left out: if the code
+                    # under verification still calls it, that is a front-end error (undecided); if not, nothing is lost
+                    if d == 'stub' and 'not found' in str(e):
+                        missing_stubs.append('%s::%s' % (file, item))
+                        continue
+                    raise
                 info.verus_name = '::'.join(mod_stack + [item.split('::')[-1]])
                 start = sum(len(s.text.encode()) for s in segs)
                 segs.extend(fsegs)
@@ -751,7 +760,7 @@ def assemble(unit_path: str, contracts=None, canary: bool = False) -> Assembled:
         if n:
             table.append((off, off + n, s.origin))
         off += n
-    trusted = []
+    trusted = ['stub left out (function no longer exists): ' + m for m in missing_stubs]
     return Assembled(unit, text, table, fns, includes, trusted)
 
 
